@@ -12,6 +12,8 @@ import Mathlib.Tactic.Ring
 
 set_option linter.unusedSimpArgs false
 set_option linter.unusedVariables false
+set_option linter.unreachableTactic false
+set_option linter.unusedTactic false
 
 namespace Pandora.C11KernelsSteps
 open Pandora Pandora.Cbca Pandora.PyLoops Pandora.PyArrays Pandora.PyExpr
@@ -262,12 +264,13 @@ theorem done3_read {P : Plane} {a : Int → Int → Val} (hd : Done3 P P.H 0 a)
   · have h2 : ¬ ((0 : Int) ≤ (k : Int) ∧ (k : Int) < (P.H : Int)) := by omega
     simp [h2, hlt]
 
-/-- **`cbca_step_3` as the source defines it today is the hand model's column scan.**  Called with the output of step 2
-    (`P.H ≥ 1` rows: the function reads `step2[0, :]`), the generated function returns (`Res.ok`) an array of shape
+/-- **`cbca_step_3` as the source defines it today is the hand model's column scan.**  Called with any array whose cells
+    inside `H × W` are the model's `step2` (`P.H ≥ 1` rows: the function reads `step2[0, :]`), the generated function returns (`Res.ok`) an array of shape
     `(H + 1, W)` whose cell `[i, x]`, read with a Python row index `i ∈ [-(H+1), H]`, is `s3At P x i`: the running column
     sum `step3 P x i` for `0 ≤ i < H`, and `0` in the sentinel row reached by `i = H` or `i = -1`. -/
-theorem cbcaStep3_generated_eq (P : Plane) (hH : 1 ≤ P.H) :
-    ∃ r, cbcaStep3 (embS2 P) P.H P.W = .ok r ∧ r.n0 = (P.H : Int) + 1 ∧ r.n1 = P.W ∧
+theorem cbcaStep3_generated_eq (P : Plane) (hH : 1 ≤ P.H) (s2 : Int → Int → Val)
+    (hs2 : ∀ y x : Nat, y < P.H → x < P.W → s2 y x = Val.num (step2 P y x)) :
+    ∃ r, cbcaStep3 s2 P.H P.W = .ok r ∧ r.n0 = (P.H : Int) + 1 ∧ r.n1 = P.W ∧
       ∀ (x : Nat) (i : Int), x < P.W → -((P.H : Int) + 1) ≤ i → i < (P.H : Int) + 1 →
         get2 r.get r.n0 r.n1 i x = Val.num (s3At P x i) := by
   simp only [cbcaStep3]
@@ -281,11 +284,13 @@ theorem cbcaStep3_generated_eq (P : Plane) (hH : 1 ≤ P.H) :
       refine ⟨rfl, ?_⟩
       intro i j hi hj
       have hj' : (0 : Int) ≤ (j : Int) ∧ (j : Int) < (P.W : Int) := ⟨by omega, by exact_mod_cast hj⟩
-      simp only [setRow2, row2, zeros2, wrap, embS2]
+      have h00 := hs2 0 j (by omega) hj
+      simp only [setRow2, row2, zeros2, wrap]
       by_cases h : i = 0
       · subst h
         have : (0 < 0 + 1 ∨ 0 = 0 + 1 ∧ j < 0) ∧ 0 < P.H := ⟨Or.inl (by omega), by omega⟩
-        simp [hj', this, step3]
+        simp at h00
+        simp [hj', this, step3, h00]
       · have h' : ¬ ((i : Int) = 0) := by omega
         have : ¬ ((i < 0 + 1 ∨ i = 0 + 1 ∧ j < 0) ∧ i < P.H) := by omega
         simp [h, h', this]
@@ -311,7 +316,8 @@ theorem cbcaStep3_generated_eq (P : Plane) (hH : 1 ≤ P.H) :
         have hprev := hd t r (by omega) hr
         have : (t < t + 1 ∨ t = t + 1 ∧ r < r) ∧ t < P.H := ⟨Or.inl (by omega), by omega⟩
         rw [if_pos this] at hprev
-        simp only [Int.zero_add, Int.one_mul, e1, get2_embS2, get2_nat, embS2_nat, inb2_nat htH1 hrW, inb2_nat hcH hrW, inb2_nat hcH1 hrW,
+        have hcell := hs2 (t + 1) r (by omega) hr
+        simp only [Int.zero_add, Int.one_mul, e1, get2_nat, hcell, inb2_nat htH1 hrW, inb2_nat hcH hrW, inb2_nat hcH1 hrW,
           hprev, Bool.and_true, Bool.true_and]
         exact ⟨by triv, by triv, done3_set _ _ hd (by omega) _ (by simp [step3, vadd, Val.map2])⟩
       exact ⟨by triv, by simp [keyM.1], done3_next keyM.2⟩
@@ -671,5 +677,57 @@ theorem cbcaStep4_generated_eq (P : Plane) (n : Nat) (rc rcr : Int → Int) (s3 
     simp [key.1, h0]
   · intro y x hy hx
     exact ⟨done_final key.2.1 y x hy hx, done_final key.2.2 y x hy hx⟩
+
+/-! ## The four kernels wired as in `cost_volume_aggregation` -/
+
+/-- **The chain `cbca_step_1 → 2 → 3 → 4` of the source, each kernel fed the arrays (and shapes) the previous ones
+    returned, computes the hand model's `step4` and `sum4 - 1`** for every plane with at least one row, left arms inside
+    the image and the column lists of `cost_volume_aggregation`; no kernel reads or writes outside an array. -/
+theorem cbcaSteps_generated_chain (P : Plane) (hH : 1 ≤ P.H) (n : Nat) (rc rcr : Int → Int)
+    (hw : Wired P n rc rcr) (hin : ArmsIn P.H P.W P.armsL) :
+    ∃ r1 r2 r3 r4,
+      cbcaStep1 (embV P.cv) P.H P.W = .ok r1 ∧
+      cbcaStep2 r1.get r1.n0 r1.n1 (embA P.armsL) P.H P.W 4 (embA P.armsR) P.H P.Wr 4 rc n rcr n = .ok r2 ∧
+      cbcaStep3 r2.1.get r2.1.n0 r2.1.n1 = .ok r3 ∧
+      cbcaStep4 r3.get r3.n0 r3.n1 r2.2.get r2.2.n0 r2.2.n1 (embA P.armsL) P.H P.W 4 (embA P.armsR) P.H P.Wr 4 rc n rcr n
+        = .ok r4 ∧
+      ∀ y x : Nat, y < P.H → x < P.W →
+        r4.1.get y x = Val.num (step4 P y x) ∧ r4.2.get y x = Val.num (((sum4 P y x : Nat) : Rat) - 1) := by
+  obtain ⟨r1, e1, a0, a1, c1⟩ := cbcaStep1_generated_eq P.H P.W P.cv
+  rw [a0, a1] at c1
+  obtain ⟨r2, e2, b0, b1, b2, b3, c2⟩ := cbcaStep2_generated_eq P n rc rcr r1.get c1 hw hin
+  obtain ⟨r3, e3, d0, d1, c3⟩ := cbcaStep3_generated_eq P hH r2.1.get (fun y x hy hx => (c2 y x hy hx).1)
+  rw [d0, d1] at c3
+  obtain ⟨r4, e4, _, _, _, _, c4⟩ := cbcaStep4_generated_eq P n rc rcr r3.get r2.2.get c3
+    (fun y x hy hx => (c2 y x hy hx).2) hw hin
+  exact ⟨r1, r2, r3, r4, e1, by rw [a0, a1]; exact e2, by rw [b0, b1]; exact e3,
+    by rw [d0, d1, b2, b3]; exact e4, c4⟩
+
+/-! ## Non-vacuity: a concrete plane satisfies the hypotheses -/
+
+/-- a `2 × 3` plane at disparity `-1` (columns 1, 2 face the right columns 0, 1), one NaN cost -/
+def exP : Plane :=
+  { H := 2, W := 3, Wr := 3, d := -1
+    cv := fun y x => if y = 0 ∧ x = 1 then Val.nan else Val.num ((y : Rat) + 2 * x + 1)
+    armsL := fun y x => ⟨min x 1, min (2 - x) 1, y, 1 - y⟩
+    armsR := fun y x => ⟨x, 2 - x, y, 1 - y⟩ }
+
+example : ArmsIn exP.H exP.W exP.armsL := armsIn_of _ _ _ (by decide +kernel)
+
+example : Wired exP 2 (fun t => t + 1) (fun t => t) where
+  facing := by
+    intro t ht
+    have : t = 0 ∨ t = 1 := by omega
+    rcases this with rfl | rfl
+    · exact ⟨1, 0, rfl, by decide, by decide +kernel, rfl, by decide⟩
+    · exact ⟨2, 1, rfl, by decide, by decide +kernel, rfl, by decide⟩
+  once := by intro t t' _ _ h; simpa using h
+  all := by
+    intro x hx hne
+    have : x = 0 ∨ x = 1 ∨ x = 2 := by have : x < 3 := hx; omega
+    rcases this with rfl | rfl | rfl
+    · exact absurd (by decide +kernel) hne
+    · exact ⟨0, by decide, rfl⟩
+    · exact ⟨1, by decide, rfl⟩
 
 end Pandora.C11KernelsSteps
